@@ -237,8 +237,15 @@ def fixpoint(repo: Repo, chk: Check) -> None:
     chk.result(okc, "C19.idempotence-shape", f"{b.key}:children-first", b.where, "both children are canonicalised before the node itself")
     mp = repo.func(CANON, "canonicalize_map")
     chk.analysed(mp.key)
-    src = ast.unparse(mp.node)
-    chk.result("map.num_dims" in src and "map.num_symbols" in src and "for expr in map.results" in src, "C19.idempotence-shape", f"{mp.key}:all-results", mp.where,
+    mpar = mp.param(0)
+    okm = False
+    for n in ast.walk(mp.node):
+        if isinstance(n, ast.Call) and callee_name(n) == "AffineMap" and len(n.args) >= 3:
+            gens = [g for g in ast.walk(n.args[2]) if isinstance(g, (ast.GeneratorExp, ast.ListComp))]
+            okm = (norm.match(T(f"{mpar}.num_dims"), n.args[0]) is not None and norm.match(T(f"{mpar}.num_symbols"), n.args[1]) is not None and any(
+                len(g.generators) == 1 and not g.generators[0].ifs and norm.match(T(f"{mpar}.results"), g.generators[0].iter) is not None
+                and isinstance(g.elt, ast.Call) and callee_name(g.elt) == "canonicalize_expr" for g in gens))
+    chk.result(okm, "C19.idempotence-shape", f"{mp.key}:all-results", mp.where,
                "canonicalize_map keeps dims/symbols and canonicalises every result")
 
 
